@@ -150,7 +150,7 @@ def run(chk):
     # ---- R17.7 / R17.8: nothing a call leaves behind - in the interpolator OR in the caller's buffer - can influence a later answer
     chk.rule('R17.7', "a batch in which one element fails and a later one succeeds returns that element's error from every batch entry point (no verdict depends on the order of a batch or on the entry point)")
     from . import entry
-    entry.batch_short_circuit(chk, lib, 'R17.7')
+    entry.batch_short_circuit(chk, lib, 'R17.7', report_unsupported=False)
     chk.rule('R17.8', "the built-in strategies overwrite their target: the value written never mentions what the buffer held before (so a reused buffer cannot carry an earlier answer into a later one)")
     from ..kernels import run_linear, run_spline, run_bilinear, LIN, SPL, BIL
     for name, o, path in (('Linear', run_linear(lib, True, 'inside'), LIN), ('CubicSpline', run_spline(lib, 'Yes', 'inside'), SPL),
